@@ -119,6 +119,7 @@ class Model:
         if v == "user":
             self.auth = None
             self.user = None
+            self.rnfr = None  # a pending RNFR was resolved for the previous user: it does not survive USER (F17)
             u = self.find_user(arg)
             if u is None:
                 return dict(codes=["530"])
